@@ -174,9 +174,9 @@ def render_script(case):
             lines.append(f"    service.call('vf', 'sink', src=uid, fn={f['name']!r})")
         if f["sleep"]:
             lines.append("    task.sleep(5)")
-            lines.append(f"    vf.rec('end', fn={f['name']!r}, uid=uid)")
+            lines.append(f"    vf.rec('end', fn={f['name']!r}, uid=uid, kw_uid=vf.uid(kw))")
             if f["emit"]:
-                lines.append(f"    vf.sink2(src=uid, fn={f['name']!r}, late=True)")
+                lines.append(f"    event.fire('out2', src=uid, fn={f['name']!r})")
         lines.append("")
     return "\n".join(lines)
 
@@ -311,7 +311,6 @@ def run_case(case):
 
     extra = {
         "vf.uid": lambda kw: _uid_of(sanitize(kw)),
-        "vf.sink2": lambda **k: sink.append({"late": True, **k}),
     }
     w, _ = run_world(
         main,
@@ -425,6 +424,29 @@ def run_case(case):
     n_sleepy = sum(1 for r in runs if any(f["name"] == r["fn"] and f["sleep"] for f in case["funcs"]))
     if len(ends) != n_sleepy:
         viol.append({"mech": "sleeping_run_lost", "msg": f"{n_sleepy} sleeping runs started, {len(ends)} finished"})
+    # a run that was suspended must resume with its *own* arguments and locals, in its own task
+    run_by_task = {r["task"]: r for r in runs}
+    for e in ends:
+        r = run_by_task.get(e["task"])
+        if r is None or r["fn"] != e["fn"] or _uid_of(r["kw"]) != e["uid"] or e["kw_uid"] != e["uid"]:
+            viol.append(
+                {
+                    "mech": "run_state_mixed_after_suspension",
+                    "msg": f"end record {e} does not match the run of its task {r and (r['fn'], _uid_of(r['kw']))}",
+                }
+            )
+            break
+    outs2 = [b for b in w.bus if b["type"] == "out2"]
+    n_emit_sleepy = sum(1 for r in runs if any(f["name"] == r["fn"] and f["sleep"] and f["emit"] for f in case["funcs"]))
+    if len(outs2) != n_emit_sleepy:
+        viol.append({"mech": "event_fire_count", "msg": f"{n_emit_sleepy} runs fired 'out2' after sleeping but {len(outs2)} seen"})
+    for b in outs2:
+        d = b["data"]
+        emitted_checked += 1
+        want = run_ctx.get((d.get("fn"), d.get("src")), "?")
+        if want == "?" or b["parent"] != want:
+            viol.append({"mech": "context_parent_event", "msg": f"out2 (after sleep) of {d.get('fn')} uid {d.get('src')}: parent {b['parent']} expected {want}"})
+            break
     errs = w.logs(level="ERROR")
     if errors_expected < 0:
         errors_expected = -1
